@@ -599,7 +599,9 @@ Definition mc_strip (l : bytes) : bytes :=
 
 (* storage commands: the data block is exactly <bytes> bytes followed by \r\n; the payload is
    its first 80 bytes (io.ReadFull), the rest and the \r\n are discarded *)
-Fixpoint memcached_prog (udp : bool) (fuel : nat) : prog :=
+(* lim: None = not over UDP (no limiter); Some t = over UDP with t tokens left in the source's
+   bucket: after each command event limiter.Allow is asked, and a refusal ends Handle *)
+Fixpoint memcached_prog (lim : option nat) (fuel : nat) : prog :=
   match fuel with
   | O => PDone OUT_OF_FUEL
   | S f =>
@@ -609,7 +611,9 @@ Fixpoint memcached_prog (udp : bool) (fuel : nat) : prog :=
         | RLine l =>
             let command := mc_strip l in
             PEmit (mkEv EV_MC_CMD [command])
-              (match split_on SP command with
+              (match lim with Some O => PDone 0 | _ =>
+               let lim := match lim with Some (S t) => Some t | _ => lim end in
+               match split_on SP command with
                | w :: args =>
                    if mc_storage w then
                      match args with
@@ -622,21 +626,21 @@ Fixpoint memcached_prog (udp : bool) (fuel : nat) : prog :=
                              PTake (Z.to_nat v) (fun data =>
                                match data, Z.to_nat v with
                                | [], S _ => PDone 1                      (* ReadFull: nothing there *)
-                               | _, _ => PTake 2 (fun _ => PEmit (ev (firstn 80 data)) (memcached_prog udp f))
+                               | _, _ => PTake 2 (fun _ => PEmit (ev (firstn 80 data)) (memcached_prog lim f))
                                end)
                          end
                      | _ => PDone 1
                      end
-                   else memcached_prog udp f
-               | [] => memcached_prog udp f
-               end)
+                   else memcached_prog lim f
+               | [] => memcached_prog lim f
+               end end)
         end)
   end.
 
 (* over UDP the first 8 bytes are the frame header: ONE Read of 8 bytes (exact = false) or,
    in the reference reading, exactly 8 bytes *)
-Definition memcached_udp_prog (exact : bool) (fuel : nat) : prog :=
-  (if exact then PTake 8 else PRead 8) (fun _ => memcached_prog true fuel).
+Definition memcached_udp_prog (exact : bool) (lim : option nat) (fuel : nat) : prog :=
+  (if exact then PTake 8 else PRead 8) (fun _ => memcached_prog lim fuel).
 
 (* ------------------------------------------------------------------ *)
 (* http family: http.ReadRequest on the request grammar + the handlers' body handling *)
@@ -660,9 +664,12 @@ Definition request_line_ok (m u p : bytes) : bool :=
 
 Definition is_tab_sp (b : N) : bool := beq b SP || beq b 9%N.
 
-(* header lines until the blank line: (host, content-length) *)
-Fixpoint http_headers (fuel : nat) (host : bytes) (cl : option N)
-         (k : option (bytes * option N) -> prog) : prog :=
+Definition s_transfer_encoding := [116;114;97;110;115;102;101;114;45;101;110;99;111;100;105;110;103]%N.
+Definition s_chunked := [99;104;117;110;107;101;100]%N.
+
+(* header lines until the blank line: (host, content-length, Transfer-Encoding: chunked) *)
+Fixpoint http_headers (fuel : nat) (host : bytes) (cl : option N) (te : bool)
+         (k : option (bytes * option N * bool) -> prog) : prog :=
   match fuel with
   | O => PDone OUT_OF_FUEL
   | S f =>
@@ -672,22 +679,94 @@ Fixpoint http_headers (fuel : nat) (host : bytes) (cl : option N)
         | RLine _ =>
             match tp_line res with
             | None => k None
-            | Some [] => k (Some (host, cl))
+            | Some [] => k (Some (host, cl, te))
             | Some l =>
                 match cut 58%N l with
                 | (_, None) => k None                      (* malformed MIME header line *)
                 | (name, Some v) =>
                     let v := trim_both is_tab_sp v in
                     let name := map lower name in
-                    if eqb_bytes name s_host then http_headers f (match host with [] => v | _ => host end) cl k
+                    if eqb_bytes name s_host then http_headers f (match host with [] => v | _ => host end) cl te k
                     else if eqb_bytes name s_content_length then
                       match parse_uint64 v with
                       | None => k None                     (* bad Content-Length *)
-                      | Some n => http_headers f host (Some n) k
+                      | Some n => http_headers f host (Some n) te k
                       end
-                    else http_headers f host cl k
+                    else if eqb_bytes name s_transfer_encoding then
+                      (if eqb_bytes (map lower v) s_chunked then http_headers f host cl true k
+                       else k None)                         (* unsupported transfer encoding *)
+                    else http_headers f host cl te k
                 end
             end
+        end)
+  end.
+
+
+(* net/http/internal chunkedReader + the trailer: chunk-size line (hex, optional ";extension",
+   trailing blanks), the data, CRLF, ..., a zero-size chunk, trailer lines up to a blank line.
+   The whole body is decoded: complete / the stream ended inside it / malformed - with the
+   bytes decoded so far *)
+Inductive chunk_res := CBody (b : bytes) | CTrunc (b : bytes) | CErr (b : bytes).
+
+Definition hex_digit (b : N) : option N :=
+  if is_digit b then Some (b - 48)%N
+  else if ((97 <=? b) && (b <=? 102))%N then Some (b - 87)%N
+  else if ((65 <=? b) && (b <=? 70))%N then Some (b - 55)%N
+  else None.
+Fixpoint hex_acc (acc : N) (l : bytes) : option N :=
+  match l with
+  | [] => Some acc
+  | x :: r => match hex_digit x with Some d => hex_acc (acc * 16 + d)%N r | None => None end
+  end.
+Definition parse_hex (s : bytes) : option N :=
+  match s with
+  | [] => None
+  | _ => if 16 <? length s then None else hex_acc 0%N s
+  end.
+Definition is_ws_tail (b : N) : bool := beq b SP || beq b 9%N || beq b CR || beq b LF.
+Definition chunk_size_of_line (l : bytes) : option N := parse_hex (fst (cut 59%N (trim_right is_ws_tail l))).
+Definition CHUNK_CAP : N := 16777216%N.     (* larger declared sizes cannot be filled by a test stream *)
+
+Fixpoint chunk_trailer (fuel : nat) (ok bad : prog) : prog :=
+  match fuel with
+  | O => PDone OUT_OF_FUEL
+  | S f =>
+      PUntil LF (fun res =>
+        match res with
+        | REof _ => bad                                      (* unexpected EOF reading trailer *)
+        | RLine _ =>
+            match tp_line res with
+            | None => bad
+            | Some [] => ok
+            | Some l => match cut 58%N l with
+                        | (_, Some _) => chunk_trailer f ok bad
+                        | (_, None) => bad
+                        end
+            end
+        end)
+  end.
+
+Fixpoint chunk_body (fuel : nat) (acc : bytes) (k : chunk_res -> prog) : prog :=
+  match fuel with
+  | O => PDone OUT_OF_FUEL
+  | S f =>
+      PUntil LF (fun res =>
+        match res with
+        | REof _ => k (CTrunc acc)
+        | RLine l =>
+            if BUFSZ <=? length l then k (CErr acc)           (* chunk header line too long *)
+            else match chunk_size_of_line l with
+                 | None => k (CErr acc)
+                 | Some 0%N => chunk_trailer f (k (CBody acc)) (k (CErr acc))
+                 | Some n =>
+                     if (CHUNK_CAP <? n)%N then k (CTrunc acc)
+                     else PTake (N.to_nat n) (fun d =>
+                            if length d <? N.to_nat n then k (CTrunc (acc ++ d))
+                            else PTake 2 (fun e =>
+                                   if eqb_bytes e [CR; LF] then chunk_body f (acc ++ d) k
+                                   else if length e <? 2 then k (CTrunc (acc ++ d))
+                                   else k (CErr (acc ++ d))))
+                 end
         end)
   end.
 
@@ -733,11 +812,13 @@ Fixpoint http_prog (cfg : http_cfg) (fresh : bool) (fuel : nat) : prog :=
                 | (_, None) => PDone 1
                 | (u, Some p) =>
                     if negb (request_line_ok m u p) then PDone 1 else
-                    http_headers f [] None (fun h =>
+                    http_headers f [] None false (fun h =>
                       match h with
                       | None => PDone 1
-                      | Some (host, cl) =>
+                      | Some (host, cl, te) =>
                           let n := match cl with Some n => N.to_nat n | None => 0 end in
+                          (* Transfer-Encoding is honoured for HTTP/1.1 only; chunked wins over Content-Length *)
+                          let chunked := te && eqb_bytes p s_HTTP11 in
                           let emit (payload : bytes) (k : prog) : prog :=
                             match h_emit cfg with
                             | EAlways => PEmit (mkEv EV_HTTP [m; u; host; payload]) k
@@ -752,6 +833,15 @@ Fixpoint http_prog (cfg : http_cfg) (fresh : bool) (fuel : nat) : prog :=
                             end in
                           match h_body cfg with
                           | BFirstRead =>
+                              if chunked then
+                                chunk_body f [] (fun r =>
+                                  match r with
+                                  | CBody b => emit (firstn 1024 b) again
+                                  | CTrunc [] => PDone 1
+                                  | CTrunc b => emit (firstn 1024 b) again
+                                  | CErr b => if 1024 <=? length b then emit (firstn 1024 b) (PDone 1) else PDone 1
+                                  end)
+                              else
                               match n with
                               | O => emit [] again
                               | _ => PTake (Nat.min 1024 n) (fun b =>
@@ -763,6 +853,12 @@ Fixpoint http_prog (cfg : http_cfg) (fresh : bool) (fuel : nat) : prog :=
                           | BReadAll =>
                               if (match h_emit cfg with EPostBody => negb (eqb_bytes m s_POST) | _ => false end)
                               then again                                   (* cwmp: body of a non-POST is not read *)
+                              else if chunked then
+                                chunk_body f [] (fun r =>
+                                  match r with
+                                  | CBody b => emit b again
+                                  | _ => PDone 1
+                                  end)
                               else PTake n (fun b =>
                                      if length b <? n then PDone 1 else emit b again)
                           end
@@ -1062,6 +1158,84 @@ Fixpoint ldap_prog (fuel : nat) : prog :=
         end)
   end.
 
+
+(* ------------------------------------------------------------------ *)
+(* snmp: services/snmp/snmp.go on SNMPv1-shaped messages               *)
+(* ------------------------------------------------------------------ *)
+Definition EV_SNMP : N := 19%N.        (* [type; community; oids] *)
+
+(* asn1.Oid.String of the contents of an OBJECT IDENTIFIER: ".a.b.c..." *)
+Fixpoint oid_subids (cur : N) (l : bytes) : list N :=
+  match l with
+  | [] => []
+  | b :: r => if (128 <=? b)%N then oid_subids (cur * 128 + (b - 128))%N r
+              else (cur * 128 + b)%N :: oid_subids 0%N r
+  end.
+Definition oid_text (v : bytes) : bytes :=
+  match v with
+  | [] => []
+  | b0 :: r => flat_map (fun n => 46%N :: N_to_dec n) ((b0 / 40)%N :: (b0 - 40 * (b0 / 40))%N :: oid_subids 0%N r)
+  end.
+
+(* the variable bindings' names, joined with "," *)
+Definition snmp_oids (varbinds : bytes) : option bytes :=
+  match tlv_list (S (length varbinds)) varbinds with
+  | None => None
+  | Some vbs =>
+      let names := map (fun vb : N * bytes =>
+                     match tlv_list (S (length (snd vb))) (snd vb) with
+                     | Some ((6%N, o) :: _) => oid_text o
+                     | _ => []
+                     end) vbs in
+      Some (join_comma names)
+  end.
+
+Definition s_get_request := [103;101;116;45;114;101;113;117;101;115;116]%N.
+Definition s_get_next_request := [103;101;116;45;110;101;120;116;45;114;101;113;117;101;115;116]%N.
+Definition s_set_request := [115;101;116;45;114;101;113;117;101;115;116]%N.
+Definition s_unknown_packet := [117;110;107;110;111;119;110;45;112;97;99;107;101;116]%N.
+
+(* b: what the buffered reader holds after Peek(2) (the datagram, at most 4096 bytes); the
+   message buffer has 2 + b[1] bytes (zero-filled if the datagram is shorter) *)
+Definition snmp_event (b : bytes) : prog :=
+  match b with
+  | _ :: l0 :: _ =>
+      let size := 2 + N.to_nat l0 in
+      let buf := firstn size b in
+      (* a datagram shorter than its declared length is decoded zero-filled by the code; the
+         ASN.1 library rejects what the generator produces that way: modelled as "no event" *)
+      if length b <? size then PDone 1
+      else if negb (tlv_fit (S (length buf)) 0 buf) then PDone 0
+      else match tlv_split buf with
+           | Some (48%N, content, []) =>
+               match tlv_list (S (length content)) content with
+               | Some [(2%N, ver); (4%N, community); (pid, pdu)] =>
+                   match tlv_list (S (length pdu)) pdu with
+                   | Some [(2%N, _); (2%N, _); (2%N, _); (48%N, varbinds)] =>
+                       if negb (beq (be_N ver) 0%N) then
+                         (if ((160 <=? pid) && (pid <=? 163))%N
+                          then PEmit (mkEv EV_SNMP [s_unknown_packet; community; []]) (PDone 0) else PDone 1)
+                       else
+                         match snmp_oids varbinds with
+                         | None => PDone 1
+                         | Some oids =>
+                             if beq pid 160%N then PEmit (mkEv EV_SNMP [s_get_request; community; oids]) (PDone 0)
+                             else if beq pid 161%N then PEmit (mkEv EV_SNMP [s_get_next_request; community; oids]) (PDone 0)
+                             else if beq pid 163%N then PEmit (mkEv EV_SNMP [s_set_request; community; oids]) (PDone 0)
+                             else PDone 0                      (* "Unsupported PDU" *)
+                         end
+                   | _ => PDone 1
+                   end
+               | _ => PDone 1
+               end
+           | Some (_, _, _ :: _) => PDone 0                     (* remaining > 0 *)
+           | _ => PDone 1
+           end
+  | _ => PDone 1                                                (* Peek(2) fails *)
+  end.
+Definition snmp_prog (exact : bool) : prog :=
+  (if exact then PTake else PRead) BUFSZ (fun b => snmp_event b).
+
 (* ------------------------------------------------------------------ *)
 (* service table                                                       *)
 (* ------------------------------------------------------------------ *)
@@ -1081,13 +1255,14 @@ Definition SVC_MEMCACHED_UDP : N := 20%N.
 Definition SVC_TFTP : N := 21%N.
 Definition SVC_CS : N := 22%N.
 Definition SVC_DNS : N := 23%N.
+Definition SVC_SNMP : N := 25%N.
 
 (* the code *)
 Definition impl_prog (svc : N) (fuel : nat) : prog :=
   if beq svc SVC_FTP then ftp_prog fuel
   else if beq svc SVC_SMTP then smtp_prog true fuel SHello 0 []
   else if beq svc SVC_REDIS then redis_prog fuel []
-  else if beq svc SVC_MEMCACHED then memcached_prog false fuel
+  else if beq svc SVC_MEMCACHED then memcached_prog None fuel
   else if beq svc SVC_HTTP then http_prog cfg_http false fuel
   else if beq svc SVC_DOCKER then http_prog cfg_docker true fuel
   else if beq svc SVC_ELASTIC then http_prog cfg_elastic true fuel
@@ -1095,10 +1270,11 @@ Definition impl_prog (svc : N) (fuel : nat) : prog :=
   else if beq svc SVC_ETHEREUM then http_prog cfg_ethereum true fuel
   else if beq svc SVC_CWMP then http_prog cfg_cwmp true fuel
   else if beq svc SVC_LDAP then ldap_prog fuel
-  else if beq svc SVC_MEMCACHED_UDP then memcached_udp_prog false fuel
+  else if beq svc SVC_MEMCACHED_UDP then memcached_udp_prog false None fuel
   else if beq svc SVC_TFTP then tftp_prog false
   else if beq svc SVC_CS then cs_prog false
   else if beq svc SVC_DNS then dns_prog false
+  else if beq svc SVC_SNMP then snmp_prog false
   else PDone 0.
 
 (* the reference reading of the same byte stream: one reader per connection, exact counts *)
@@ -1106,7 +1282,7 @@ Definition spec_prog (svc : N) (fuel : nat) : prog :=
   if beq svc SVC_FTP then ftp_prog fuel
   else if beq svc SVC_SMTP then smtp_prog true fuel SHello 0 []
   else if beq svc SVC_REDIS then redis_prog fuel []
-  else if beq svc SVC_MEMCACHED then memcached_prog false fuel
+  else if beq svc SVC_MEMCACHED then memcached_prog None fuel
   else if beq svc SVC_HTTP then http_prog cfg_http false fuel
   else if beq svc SVC_DOCKER then http_prog cfg_docker false fuel
   else if beq svc SVC_ELASTIC then http_prog cfg_elastic false fuel
@@ -1114,10 +1290,11 @@ Definition spec_prog (svc : N) (fuel : nat) : prog :=
   else if beq svc SVC_ETHEREUM then http_prog cfg_ethereum false fuel
   else if beq svc SVC_CWMP then http_prog cfg_cwmp false fuel
   else if beq svc SVC_LDAP then ldap_prog fuel
-  else if beq svc SVC_MEMCACHED_UDP then memcached_udp_prog true fuel
+  else if beq svc SVC_MEMCACHED_UDP then memcached_udp_prog true None fuel
   else if beq svc SVC_TFTP then tftp_prog true
   else if beq svc SVC_CS then cs_prog true
   else if beq svc SVC_DNS then dns_prog true
+  else if beq svc SVC_SNMP then snmp_prog true
   else PDone 0.
 
 Definition fuel_for (s : bytes) : nat := 3 * length s + 10.
@@ -1127,8 +1304,56 @@ Definition run_impl (svc : N) (c : segs) : list event * N :=
 Definition expected (svc : N) (s : bytes) : list event * N :=
   str_obs (spec_prog svc (fuel_for s)) s.
 
+(* ------------------------------------------------------------------ *)
+(* datagram sequences from ONE source: services.Limiter (burst 4, one token per ten minutes -
+   no refill within a run).  t = tokens left for the source.  Events must not depend on t:
+   the limiter is there to withhold REPLIES. *)
+(* ------------------------------------------------------------------ *)
+Definition LIMITER_BURST : nat := 4.
+Definition count_ty (ty : N) (es : list event) : nat := length (filter (fun e => beq (ev_ty e) ty) es).
+
+(* one datagram: (events, return code, tokens left) *)
+Definition udp_one (svc : N) (t : nat) (d : bytes) : list event * N * nat :=
+  if beq svc SVC_TFTP then
+    (* Allow is asked first: a refused datagram is neither decoded nor reported *)
+    match t with
+    | O => ([], 0%N, 0)
+    | S t' => let '(es, c) := seg_obs (tftp_prog false) [d] in (es, c, t')
+    end
+  else if beq svc SVC_MEMCACHED_UDP then
+    let '(es, c) := seg_obs (memcached_udp_prog false (Some t) (fuel_for d)) [d] in
+    (es, c, t - Nat.min t (count_ty EV_MC_CMD es))
+  else
+    (* counterstrike, snmp: Allow is asked after the events were sent; dns has no limiter *)
+    let '(es, c) := run_impl svc [d] in (es, c, Nat.pred t).
+
+Fixpoint udp_seq (svc : N) (t : nat) (ds : list bytes) : list event * N :=
+  match ds with
+  | [] => ([], 0%N)
+  | d :: r => let '(es, c, t') := udp_one svc t d in
+              let '(es2, c2) := udp_seq svc t' r in
+              (es ++ es2, if beq c 2%N then 2%N else c2)
+  end.
+
+(* reference: every datagram is reported on its own *)
+Fixpoint udp_seq_expected (svc : N) (ds : list bytes) : list event * N :=
+  match ds with
+  | [] => ([], 0%N)
+  | d :: r => let '(es, c) := expected svc d in
+              let '(es2, c2) := udp_seq_expected svc r in
+              (es ++ es2, if beq c 2%N then 2%N else c2)
+  end.
+
+Definition SEQ_BASE : N := 100%N.     (* service code of a sequence case = 100 + service code *)
+
 (* all services: telnet has its own reader (the terminal), the others are reader programs *)
 Definition run_model (svc : N) (c : segs) : list event * N :=
-  if beq svc SVC_TELNET then tn_run c else run_impl svc c.
+  if beq svc SVC_TELNET then tn_run c
+  else if (SEQ_BASE <=? svc)%N then udp_seq (svc - SEQ_BASE) LIMITER_BURST c
+  else run_impl svc c.
+(* for a sequence case the segments ARE the datagrams *)
+Definition reference_segs (svc : N) (c : segs) : list event * N :=
+  if (SEQ_BASE <=? svc)%N then udp_seq_expected (svc - SEQ_BASE) c
+  else if beq svc SVC_TELNET then tn_expected (concat c) else expected svc (concat c).
 Definition reference (svc : N) (s : bytes) : list event * N :=
   if beq svc SVC_TELNET then tn_expected s else expected svc s.
